@@ -668,8 +668,12 @@ def r10h(ctx):
 
 def _fresh_local(f, name_node) -> bool:
     """the local was re-bound to a constructor result in this function (e.g. `cell = Cell()` when none was given)"""
+    # … on every path: a constructor call that only replaces a missing argument (`if cell is None: cell = Cell()`) leaves the caller's object in place when one was given
+    def only_for_none(a):
+        return any({x.id for x in ast.walk(t) if isinstance(x, ast.Name)} <= {name_node.id} for t, _pol in structural_guards(a, stop=f.node))
+
     return any(isinstance(a, ast.Assign) and isinstance(a.targets[0], ast.Name) and a.targets[0].id == name_node.id and isinstance(a.value, ast.Call)
-               and isinstance(a.value.func, ast.Name) and a.value.func.id[:1].isupper() for a in walk_no_nested(f.node))
+               and isinstance(a.value.func, ast.Name) and a.value.func.id[:1].isupper() and not only_for_none(a) for a in walk_no_nested(f.node))
 
 
 def r10i(ctx):
@@ -777,6 +781,8 @@ _DOC = "src/odfdo/document.py"
 _XP = "src/odfdo/xmlpart.py"
 _EL = "src/odfdo/element.py"
 SEEDS = [
+    Seed("Table.append_cell no longer copies the cell it then attaches with clone=False", "fault", _T,
+         "        if clone:\n            cell = cell.clone\n        y = self._translate_y_from_any(y)\n        row = self._get_row2(y)", "        y = self._translate_y_from_any(y)\n        row = self._get_row2(y)", "R10h"),
     Seed("Row.append_cell copies the cell only when no repeat was handed in", "fault", _R,
          "        if clone:\n            cell = cell.clone\n        self._append(cell)\n        if _repeated is None:\n            _repeated = cell.repeated or 1",
          "        if _repeated is None:\n            if clone:\n                cell = cell.clone\n            _repeated = cell.repeated or 1\n        self._append(cell)", "R10h"),
